@@ -218,3 +218,27 @@ impl<T> EventNode<T> {
         (unsafe { this.value.take().unwrap_unchecked() }, this.time)
     }
 }
+
+#[cfg(petrichorit_des_verif)]
+impl<T> DualLinkedList<T> {
+    /// Walks the list forwards (via `next`) and backwards (via `prev`) and
+    /// reports `(time, id)` of every real node in the order visited.
+    #[allow(clippy::type_complexity)]
+    pub(super) fn verif_walk(&self) -> (Vec<(Duration, usize)>, Vec<(Duration, usize)>, usize) {
+        let mut fwd = Vec::new();
+        let mut bwd = Vec::new();
+        unsafe {
+            let mut cur = self.head.next;
+            while !(*cur).next.is_null() {
+                fwd.push(((*cur).time, (*cur).id));
+                cur = (*cur).next;
+            }
+            let mut cur = self.tail.prev;
+            while !(*cur).prev.is_null() {
+                bwd.push(((*cur).time, (*cur).id));
+                cur = (*cur).prev;
+            }
+        }
+        (fwd, bwd, self.len)
+    }
+}
